@@ -958,7 +958,7 @@ def pickle_rows(repo: Path):
         for f in sorted(base.rglob("*.py")):
             rel = str(f.relative_to(repo))
             tree = parse(repo, rel)
-            mod = Mod(tree)
+            mod = Mod(tree, repo, rel)
             for n in ast.walk(tree):
                 if isinstance(n, ast.ClassDef):
                     mods[id(n)] = mod
@@ -1084,7 +1084,7 @@ def render(seq, prod, custom, bind="BindPosition", same=True, names=True, types=
 
 
 def rows(repo: Path) -> dict:
-    dask, obs, misc = parse(repo, DASK), parse(repo, OBS), parse(repo, MISC)
+    dask, obs, misc = (Mod(parse(repo, f), repo, f) for f in (DASK, OBS, MISC))
     bind, _ = bind_row(dask)
     same = same_mapping_row(dask)
     names = names_order_row(obs)
@@ -1093,10 +1093,10 @@ def rows(repo: Path) -> dict:
     seq = sequential_row(misc, obs)
     custom = custom_row(misc)
     fidx = file_index_row(dask)
-    isl = islands_row(parse(repo, ARCHI))
-    bfe = bfe_row(parse(repo, UDEF))
+    isl = islands_row(Mod(parse(repo, ARCHI), repo, ARCHI))
+    bfe = bfe_row(Mod(parse(repo, UDEF), repo, UDEF))
     hooks = pickle_rows(repo)
-    group_runs_enabled_row(parse(repo, GROUP))
+    group_runs_enabled_row(Mod(parse(repo, GROUP), repo, GROUP))
     return dict(seq=seq, prod=prod, custom=custom, bind=bind, same=same, names=names, types=types, tuples=True,
                 fidx=fidx, isl=isl, bfe=bfe, hooks=hooks)
 
